@@ -703,6 +703,16 @@ theorem C03_json_range_coercion_current (col : JsonRange.ColT) (lo hi : JsonRang
     JsonRange.implMatchG JsonRange.Guards.extracted col lo hi v = JsonRange.specMatch lo hi v :=
   C03_json_range_coercion_extracted col lo hi v hv hlo hhi (Or.inl C03_json_range_guards_repaired)
 
+/-- column type of a merged segment (`merged_numerical_columns_type`), for a path whose values
+were supplied as u64: feeding the (min, max) of the source columns to the writer's accumulator
+gives the type the writer would give the union of all source values (deleted documents of a
+source segment included) — so the type of `attrs.p` after a merge is again `colOf` of its values,
+and the bound-conversion theorems apply to merged segments too -/
+theorem C03_json_merged_column_type (segs : List JsonRange.SegVals) (hok : ∀ s ∈ segs, s.ok) :
+    JsonRange.mergedCol (segs.map JsonRange.SegVals.src)
+      = (JsonRange.colOf true (segs.flatMap (·.vals))).lift :=
+  JsonRange.mergedCol_u64_supplied segs hok
+
 /-- integer-typed bounds (i64 / u64 terms): only the lower-bound condition remains -/
 theorem C03_json_int_range_coercion_partial (col : JsonRange.ColT) (lo hi : JsonRange.B) (v : Int)
     (hv : JsonRange.inCol col v) (hlo : lo.wf) (hhi : hi.wf) (hok : JsonRange.lowerOk col lo = true)
@@ -839,6 +849,12 @@ example : FastRange.classify (.incl 3) (.excl 10) 3 9 true = .all
 example : (∀ x ∈ ([1, 2] : List Nat), ∀ y ∈ ([9] : List Nat), 3 < dist x y)
     ∧ PhraseSlop.carrying [1, 2] [] [9] 3 = (0, [], [])
     ∧ 0 < (PhraseSlop.carrying [1, 5] [] [4, 6] 3).1 ∧ ([[7]] : List (List Nat)) ≠ [] := by decide
+example : (JsonRange.SegVals.mk [3, 9] 3 9).ok ∧ (JsonRange.SegVals.mk [2 ^ 63, 0] 0 (2 ^ 63)).ok
+    ∧ JsonRange.mergedCol [⟨.i64, 3, 9⟩, ⟨.u64, 0, 2 ^ 63⟩] = .u64
+    ∧ JsonRange.mergedCol [⟨.i64, -3, 9⟩, ⟨.u64, 0, 2 ^ 63⟩] = .f64 := by
+  refine ⟨?_, ?_, by decide, by decide⟩
+  · refine ⟨by simp, by simp, ?_, ?_⟩ <;> intro v hv <;> simp at hv <;> rcases hv with rfl | rfl <;> decide
+  · refine ⟨by simp, by simp, ?_, ?_⟩ <;> intro v hv <;> simp at hv <;> rcases hv with rfl | rfl <;> decide
 example : (JsonRange.B.excl (.f (-3))).small ∧ (JsonRange.B.incl (.i 7)).small
     ∧ JsonRange.implMatchF (.excl (.f (-3))) (.incl (.i 7)) 5 = true
     ∧ JsonRange.implMatchF (.excl (.f (-3))) (.incl (.i 7)) (-3) = false := by
